@@ -12,71 +12,82 @@ namespace TmVerif.Master
 open TmVerif.Sched
 
 /-- Invariant of `restore_placements`' loops: every placement of the cell is a record of the
-    ORIGINAL store, and nothing written so far creates a record. -/
-def OnlyRecorded (st : Store) (c : Cell) (ws : List Write) : Prop :=
-  (∀ x s, srvOf c x = some s → HasKey st s x) ∧ (∀ w ∈ ws, NoPut w)
+    ORIGINAL store; every record written so far republishes an existing record of the original
+    store under a server satisfying `P` (a loaded one); the writes start with `pre`. -/
+def OnlyRecorded (st : Store) (P : Nat → Prop) (pre : List Write) (c : Cell) (ws : List Write) : Prop :=
+  (∀ x s, srvOf c x = some s → HasKey st s x) ∧
+  (∀ w ∈ ws, ∀ s a i n e, w = Write.putRec s a i n e → HasKey st s a ∧ P s) ∧
+  pre <+: ws
 
-theorem hasKey_of_noPut (now : Int) (st : Store) (ws : List Write) (h : ∀ w ∈ ws, NoPut w) (s a : Nat)
+theorem hasKey_of_putsIn (now : Int) (st : Store) (ws : List Write)
+    (h : ∀ w ∈ ws, ∀ s a i n e, w = Write.putRec s a i n e → HasKey st s a) (s a : Nat)
     (hk : HasKey (st.applyAll now ws) s a) : HasKey st s a := by
   rcases hasKey_applyAll_origin now ws st s a hk with h' | ⟨i, n, e, hm⟩
   · exact h'
-  · exact absurd rfl (h _ hm s a i n e)
+  · exact h _ hm s a i n e rfl
 
-theorem restoreStep_keeps {st : Store} {now : Int} {acc acc' : LState} {sid : Nat}
-    (h : restoreStep st now acc sid = .ok acc') (hi : OnlyRecorded st acc.cell acc.writes) :
-    OnlyRecorded st acc'.cell acc'.writes := by
+theorem restoreStep_keeps {st : Store} {P : Nat → Prop} {pre : List Write} {now : Int} {acc acc' : LState} {sid : Nat}
+    (hP : P sid) (h : restoreStep st now acc sid = .ok acc') (hi : OnlyRecorded st P pre acc.cell acc.writes) :
+    OnlyRecorded st P pre acc'.cell acc'.writes := by
   unfold restoreStep at h
   obtain ⟨r, hr, h⟩ := bind_ok'.mp h
   obtain ⟨c1, ws1, restored⟩ := r
   simp only [pure, Except.pure] at h
   injection h with h; subst h
   obtain ⟨s1, s2⟩ := restorePlacement_spec hr
-  refine ⟨?_, ?_⟩
+  have hback : ∀ s a, HasKey (st.applyAll now acc.writes) s a → HasKey st s a :=
+    fun s a hk => hasKey_of_putsIn now st acc.writes (fun w hw s a i n e he => (hi.2.1 w hw s a i n e he).1) s a hk
+  refine ⟨?_, ?_, ?_⟩
   · intro x s hs
     rcases s1 x s hs with h' | ⟨rfl, hk⟩
     · exact hi.1 x s h'
-    · exact hasKey_of_noPut now st acc.writes hi.2 _ x hk
-  · intro w hw
+    · exact hback _ x hk
+  · intro w hw s a i n e he
     rcases List.mem_append.mp hw with h' | h'
-    · exact hi.2 w h'
-    · exact s2 w h'
+    · exact hi.2.1 w h' s a i n e he
+    · obtain ⟨rfl, hk⟩ := s2 w h' s a i n e he
+      exact ⟨hback _ a hk, hP⟩
+  · exact List.IsPrefix.trans hi.2.2 (List.prefix_append _ _)
 
-theorem restoreLoop_keeps {st : Store} {now : Int} :
-    ∀ (order : List Nat) (acc acc' : LState), order.foldlM (restoreStep st now) acc = .ok acc' →
-      OnlyRecorded st acc.cell acc.writes → OnlyRecorded st acc'.cell acc'.writes := by
+theorem restoreLoop_keeps {st : Store} {P : Nat → Prop} {pre : List Write} {now : Int} :
+    ∀ (order : List Nat) (acc acc' : LState), (∀ sid ∈ order, P sid) →
+      order.foldlM (restoreStep st now) acc = .ok acc' →
+      OnlyRecorded st P pre acc.cell acc.writes → OnlyRecorded st P pre acc'.cell acc'.writes := by
   intro order
   induction order with
   | nil =>
-    intro acc acc' h hi
+    intro acc acc' _ h hi
     simp only [List.foldlM, pure, Except.pure] at h
     injection h with h; subst h; exact hi
   | cons sid t ih =>
-    intro acc acc' h hi
+    intro acc acc' hP h hi
     simp only [List.foldlM] at h
     obtain ⟨acc1, h1, h⟩ := bind_ok'.mp h
-    exact ih acc1 acc' h (restoreStep_keeps h1 hi)
+    exact ih acc1 acc' (fun x hx => hP x (List.mem_cons_of_mem _ hx)) h
+      (restoreStep_keeps (hP sid List.mem_cons_self) h1 hi)
 
-theorem dedupOne_keeps {st : Store} {aid sid : Nat} {acc acc' : Cell × List Write}
-    (h : dedupOne aid acc sid = .ok acc') (hi : OnlyRecorded st acc.1 acc.2) : OnlyRecorded st acc'.1 acc'.2 := by
+theorem dedupOne_keeps {st : Store} {P : Nat → Prop} {pre : List Write} {aid sid : Nat} {acc acc' : Cell × List Write}
+    (h : dedupOne aid acc sid = .ok acc') (hi : OnlyRecorded st P pre acc.1 acc.2) :
+    OnlyRecorded st P pre acc'.1 acc'.2 := by
   unfold dedupOne at h
   obtain ⟨c1, h1, h⟩ := bind_ok'.mp h
   simp only [pure, Except.pure] at h
   injection h with h; subst h
-  refine ⟨?_, ?_⟩
+  refine ⟨?_, ?_, ?_⟩
   · intro x s hs
     rw [serverRemove_srvOf h1 x] at hs
     split at hs
     · cases hs
     · exact hi.1 x s hs
-  · intro w hw
+  · intro w hw s a i n e he
     rcases List.mem_append.mp hw with h' | h'
-    · exact hi.2 w h'
-    · simp only [List.mem_singleton] at h'; subst h'
-      exact fun _ _ _ _ _ e => nomatch e
+    · exact hi.2.1 w h' s a i n e he
+    · simp only [List.mem_singleton] at h'; subst h'; cases he
+  · exact List.IsPrefix.trans hi.2.2 (List.prefix_append _ _)
 
-theorem dedupApp_keeps {st : Store} {p : Nat × List Nat} :
+theorem dedupApp_keeps {st : Store} {P : Nat → Prop} {pre : List Write} {p : Nat × List Nat} :
     ∀ (l : List Nat) (acc acc' : Cell × List Write), l.foldlM (dedupOne p.1) acc = .ok acc' →
-      OnlyRecorded st acc.1 acc.2 → OnlyRecorded st acc'.1 acc'.2 := by
+      OnlyRecorded st P pre acc.1 acc.2 → OnlyRecorded st P pre acc'.1 acc'.2 := by
   intro l
   induction l with
   | nil =>
@@ -89,9 +100,9 @@ theorem dedupApp_keeps {st : Store} {p : Nat × List Nat} :
     obtain ⟨acc1, h1, h⟩ := bind_ok'.mp h
     exact ih acc1 acc' h (dedupOne_keeps h1 hi)
 
-theorem dedupLoop_keeps {st : Store} :
+theorem dedupLoop_keeps {st : Store} {P : Nat → Prop} {pre : List Write} :
     ∀ (l : List (Nat × List Nat)) (acc acc' : Cell × List Write), l.foldlM dedupApp acc = .ok acc' →
-      OnlyRecorded st acc.1 acc.2 → OnlyRecorded st acc'.1 acc'.2 := by
+      OnlyRecorded st P pre acc.1 acc.2 → OnlyRecorded st P pre acc'.1 acc'.2 := by
   intro l
   induction l with
   | nil =>
@@ -104,24 +115,74 @@ theorem dedupLoop_keeps {st : Store} :
     obtain ⟨acc1, h1, h⟩ := bind_ok'.mp h
     exact ih acc1 acc' h (dedupApp_keeps p.2 acc acc1 h1 hi)
 
+theorem mem_dropUnloaded {c : Cell} {st : Store} {w : Write} :
+    w ∈ dropUnloaded c st ↔ ∃ s a, w = .delRec s a ∧ s ∈ st.servers ∧ s ∉ c.srvs.map (·.id) ∧ HasKey st s a := by
+  simp only [dropUnloaded, List.mem_flatMap, List.mem_filter, List.mem_map]
+  constructor
+  · rintro ⟨s, ⟨hs, hnot⟩, a, ha, rfl⟩
+    refine ⟨s, a, rfl, hs, ?_, mem_appsOn.mp ha⟩
+    simpa using hnot
+  · rintro ⟨s, a, rfl, hs, hnot, hk⟩
+    exact ⟨s, ⟨hs, by simpa using hnot⟩, a, mem_appsOn.mpr hk, rfl⟩
+
+theorem restorePlacements_inv {c c' : Cell} {st : Store} {order : List Nat} {ws : List Write}
+    (hfresh : ∀ x, srvOf c x = none) (h : restorePlacements c st order = .ok (c', ws)) :
+    OnlyRecorded st (fun s => s ∈ c.srvs.map (·.id)) (dropUnloaded c st) c' ws := by
+  unfold restorePlacements at h
+  split at h
+  · cases h
+  · rename_i hperm
+    have hperm : isPerm order (c.srvs.map (·.id)) = true := by simpa using hperm
+    obtain ⟨ls, h1, h2⟩ := bind_ok'.mp h
+    have i0 : OnlyRecorded st (fun s => s ∈ c.srvs.map (·.id)) (dropUnloaded c st) c (dropUnloaded c st) := by
+      refine ⟨fun x s hs => (by rw [hfresh x] at hs; cases hs), ?_, List.prefix_refl _⟩
+      intro w hw s a i n e he
+      obtain ⟨_, _, rfl, _⟩ := mem_dropUnloaded.mp hw
+      cases he
+    have i1 := restoreLoop_keeps order _ ls (fun sid hsid => (isPerm_mem hperm sid).mp hsid) h1 i0
+    exact dedupLoop_keeps _ _ (c', ws) h2 i1
+
 /-- **C11, "places nothing that is not recorded".**  Let `c` be the model a starting master has
     loaded before `restore_placements` (it places nothing yet).  Whatever the store holds (records of
-    a crashed predecessor, stale instances, double records) and in whatever order the servers are
-    visited: every instance the rebuilt model places is recorded in the store, under that very
-    server — and `restore_placements` creates no record itself (it only deletes). -/
+    a crashed predecessor, stale instances, double records, records under servers that are gone) and
+    in whatever order the servers are visited: every instance the rebuilt model places is recorded in
+    the store, under that very server — and `restore_placements` creates no record: a `putRec` it
+    issues (fix d79bbbc: the put branch republishes the new expiry) addresses a record that exists
+    in the store, under a loaded server. -/
 theorem C11_nothing_unrecorded (c c' : Cell) (st : Store) (order : List Nat) (ws : List Write)
     (hfresh : ∀ x, srvOf c x = none)
     (h : restorePlacements c st order = .ok (c', ws)) :
     (∀ app srv, placedOn c' app srv → ∃ r ∈ st.recs, r.srv = srv ∧ r.app = app) ∧
-    (∀ w ∈ ws, ∀ s a i n e, w ≠ .putRec s a i n e) := by
-  unfold restorePlacements at h
-  split at h
-  · cases h
-  · obtain ⟨ls, h1, h2⟩ := bind_ok'.mp h
-    have i0 : OnlyRecorded st c [] := ⟨fun x s hs => (by rw [hfresh x] at hs; cases hs), fun _ hw => (by cases hw)⟩
-    have i1 := restoreLoop_keeps order _ ls h1 i0
-    have i2 := dedupLoop_keeps _ _ (c', ws) h2 i1
-    exact ⟨fun app srv hp => i2.1 app srv (placedOn_iff.mp hp), i2.2⟩
+    (∀ w ∈ ws, ∀ s a i n e, w = .putRec s a i n e →
+      (∃ r ∈ st.recs, r.srv = s ∧ r.app = a) ∧ s ∈ c.srvs.map (·.id)) := by
+  have inv := restorePlacements_inv hfresh h
+  exact ⟨fun app srv hp => inv.1 app srv (placedOn_iff.mp hp), inv.2.1⟩
+
+/-- **After `restore_placements` no record is left under a server that is not loaded** (fix dbbb9e3;
+    this was the start-up face of finding F6): what `C09_init` / `C10_init_prefix` need as `hloaded`.
+    `hparent`: a record's server node is listed by `get_children(/placement)`. -/
+theorem C11_startup_loaded (c c' : Cell) (st : Store) (order : List Nat) (ws : List Write) (now : Int)
+    (hfresh : ∀ x, srvOf c x = none) (hparent : ∀ r ∈ st.recs, r.srv ∈ st.servers)
+    (h : restorePlacements c st order = .ok (c', ws)) :
+    ∀ r ∈ (st.applyAll now ws).recs, r.srv ∈ c.srvs.map (·.id) := by
+  have inv := restorePlacements_inv hfresh h
+  obtain ⟨rest, hrest⟩ := inv.2.2
+  intro r hr
+  have hk : HasKey (st.applyAll now ws) r.srv r.app := ⟨r, hr, rfl, rfl⟩
+  rw [← hrest, applyAll_append] at hk
+  rcases hasKey_applyAll_origin now rest _ r.srv r.app hk with h0 | ⟨i, n, e, hm⟩
+  · have hdels : ∀ w ∈ dropUnloaded c st, ∃ s' a', w = Write.delRec s' a' := by
+      intro w hw
+      obtain ⟨s, a, rfl, _⟩ := mem_dropUnloaded.mp hw
+      exact ⟨s, a, rfl⟩
+    obtain ⟨h1, hnd⟩ := (hasKey_applyAll_dels now _ st r.srv r.app hdels).mp h0
+    apply Classical.byContradiction
+    intro hnot
+    apply hnd
+    have h1' := h1
+    obtain ⟨r0, hr0, e1, _⟩ := h1
+    exact mem_dropUnloaded.mpr ⟨r.srv, r.app, rfl, e1 ▸ hparent r0 hr0, hnot, h1'⟩
+  · exact (inv.2.1 _ (hrest ▸ List.mem_append_right _ hm) r.srv r.app i n e rfl).2
 
 /-- The same for the single-server reload (`reload_server` → `restore_placement(servername,
     restore_identity=False)`): it can only ADD placements of instances recorded under that server,
@@ -142,8 +203,8 @@ theorem C11_reload_only_recorded (c c' : Cell) (st : Store) (sid : Nat) (ri : Bo
     whatever the other records under the server are and in whatever state the rest of the cell is.
     PARTIAL with respect to the property: (1) THAT the restore of a record under a healthy server
     succeeds (capacity, partition, traits, affinity limits still admit it) is not proved here; it is
-    decided by the monitor on the real code and fails for instances of one affinity name with
-    different limits (known finding C11-mixed-affinity-limits…); (2) the statement is for one
+    decided by the monitor on the real code (instances of one affinity share their limits; one
+    known finding, F14: a server moved to another rack without the running master being told); (2) the statement is for one
     server's pass; that the passes of the other servers and the final de-duplication leave the
     instance alone (no record under two servers, C10) is covered by the correspondence run. -/
 theorem C11_restore_fidelity_partial (c c' : Cell) (st : Store) (sid : Nat) (ws : List Write) (restored : List Nat)
